@@ -30,6 +30,7 @@ const c16_1Canary = `package c
 import (
 	"bytes"
 	"sync"
+	"sync/atomic"
 )
 
 // BadScratch: a scratch buffer of a stateful library type shared by every stream.
@@ -51,6 +52,13 @@ func remember(k string) { BadCache[k]++ }
 
 // BadOnce: lazily initialised shared state.
 var BadOnce sync.Once
+
+// BadSeq: a plain integer advanced atomically — race free, and still one sequence for every stream.
+var BadSeq int64
+
+func nextSeq() int64 { return atomic.AddInt64(&BadSeq, 1) }
+
+var _ = nextSeq
 
 type cfg struct{ name string }
 
@@ -255,6 +263,38 @@ func c16_1On(c *core.Ctx, p *core.Prog, fns []*ssa.Function, prodPkg func(string
 					}
 				}
 				follow(ld, 0)
+			}
+			// the variable's address handed to something that writes through it: sync/atomic mutators
+			// (a counter shared by every instance), or a repository function that stores through the parameter
+			if ci, ok := u.ins.(ssa.CallInstruction); ok && !isInitFn(u.fn) {
+				for k, a := range ci.Common().Args {
+					if a != ssa.Value(g) {
+						continue
+					}
+					if f := core.CalleeObj(ci); f != nil && f.Pkg() != nil && f.Pkg().Path() == "sync/atomic" {
+						if !strings.HasPrefix(f.Name(), "Load") {
+							problems = append(problems, fmt.Sprintf("updated with atomic.%s at %s (%s): a value every instance draws from", f.Name(), p.Pos(ci.Pos()), core.FuncName(u.fn)))
+						}
+						continue
+					}
+					if callee := ci.Common().StaticCallee(); callee != nil && len(callee.Blocks) > 0 && k < len(callee.Params) {
+						prm := callee.Params[k]
+						core.EachInstr(callee, func(j ssa.Instruction) {
+							if st, ok := j.(*ssa.Store); ok && st.Addr == ssa.Value(prm) {
+								problems = append(problems, fmt.Sprintf("written through its address by %s (called at %s)", callee.Name(), p.Pos(ci.Pos())))
+							}
+							if cj, ok := j.(ssa.CallInstruction); ok {
+								if f2 := core.CalleeObj(cj); f2 != nil && f2.Pkg() != nil && f2.Pkg().Path() == "sync/atomic" && !strings.HasPrefix(f2.Name(), "Load") {
+									for _, a2 := range cj.Common().Args {
+										if a2 == ssa.Value(prm) {
+											problems = append(problems, fmt.Sprintf("updated atomically through its address by %s (called at %s)", callee.Name(), p.Pos(ci.Pos())))
+										}
+									}
+								}
+							}
+						})
+					}
+				}
 			}
 			// address-based access: &g.field / &g[i] stores
 			if fa, ok := u.ins.(*ssa.FieldAddr); ok && fa.X == ssa.Value(g) {
